@@ -66,7 +66,10 @@ MUTANTS = {
          "new": "            oriQ = np.pad(oriQ, ((len_pos - len_ori, 0), (0, 0)), \"edge\")\n"},
         {"name": "revert_fix_rotate_order", "kind": "revert", "commit": "93dce91"},
         {"name": "revert_fix_numpy_start", "kind": "revert", "commit": "068cf95"},
-        {"name": "revert_fix_empty_paths", "kind": "revert", "commit": "d0f5811"},
+        # d0f5811 (empty position / orientation inputs are rejected), as a substitution since 6122ce1 touched its lines
+        {"name": "empty_position_accepted", "kind": "sub", "file": BG,
+         "old": "    if len(pos) == 0:\n        raise MagpylibBadUserInput(",
+         "new": "    if len(pos) < 0:\n        raise MagpylibBadUserInput("},
         {"name": "pad_behind_off_by_one", "kind": "sub", "file": BT,
          "old": "        pad_behind = start + lenip - (lenop + pad_before)\n",
          "new": "        pad_behind = start + lenip - (lenop + pad_before) + (1 if pad_before else 0)\n"},
@@ -129,12 +132,28 @@ MUTANTS = {
          "old": "        yield from self._children\n",
          "new": "        yield from self._sources + self._sensors + self._collections\n"},
         {"name": "revert_fix_getter_copies", "kind": "revert", "commit": "2ae289d"},
-        {"name": "revert_fix_add_atomic", "kind": "revert", "commit": "cdaacac"},
-        {"name": "revert_fix_remove", "kind": "revert", "commit": "2b80a0e"},
+        # cdaacac (add validates everything before assigning any parent), as a substitution since 69f01cb touched it:
+        # the duplicate is only detected after the parents were assigned
+        {"name": "add_detects_duplicates_after_assigning_parents", "kind": "sub", "file": CO,
+         "old": "            if id(obj) in seen:\n                raise MagpylibBadUserInput(\n"
+                "                    f\"Cannot add {obj!r} to {self!r} more than once.\"\n                )\n"
+                "            seen.add(id(obj))\n\n        # assign parent\n        for obj in obj_list:\n"
+                "            if obj._parent is not None:\n                obj._parent.remove(obj)\n"
+                "            obj._parent = self\n",
+         "new": "\n        # assign parent\n        for obj in obj_list:\n"
+                "            if obj._parent is not None:\n                obj._parent.remove(obj)\n"
+                "            obj._parent = self\n            if id(obj) in seen:\n"
+                "                raise MagpylibBadUserInput(f\"Cannot add {obj!r} more than once.\")\n"
+                "            seen.add(id(obj))\n"},
+        # 2b80a0e (remove clears the parent link only of children it really removed), as a substitution since the
+        # follow-up repair rewrote the same lines
+        {"name": "remove_clears_parent_unconditionally", "kind": "sub", "file": CO,
+         "old": "                if rec_obj_remover(self, child):\n                    child._parent = None\n",
+         "new": "                rec_obj_remover(self, child)\n                child._parent = None\n"},
         {"name": "revert_fix_copy_finally", "kind": "revert", "commit": "395226b"},
         {"name": "remove_keeps_parent_pointer", "kind": "sub", "file": CO,
-         "old": "            if child in self_objects and rec_obj_remover(self, child):\n                child._parent = None\n",
-         "new": "            if child in self_objects and rec_obj_remover(self, child):\n                pass\n"},
+         "old": "                if rec_obj_remover(self, child):\n                    child._parent = None\n",
+         "new": "                if rec_obj_remover(self, child):\n                    pass\n"},
         {"name": "typed_setter_without_view_update", "kind": "sub", "file": CO,
          "old": "        self._children += obj_list\n        self._update_src_and_sens()\n",
          "new": "        self._children += obj_list\n        if len(obj_list) != 2:\n            self._update_src_and_sens()\n"},
@@ -149,7 +168,14 @@ MUTANTS = {
          "new": "            if obj._parent is not None and not isinstance(obj, Collection):\n                obj._parent.remove(obj)\n            obj._parent = self\n"},
     ],
     "C18": [
-        {"name": "revert_fix_tree_kwargs_last", "kind": "revert", "commit": "0c17cf5"},
+        # 0c17cf5 (tree inputs of copy() after everything that can be rejected), as a substitution since a68f46d:
+        # tree inputs applied first again
+        {"name": "copy_applies_tree_inputs_first", "kind": "sub", "file": BG,
+         "old": "        style_kwargs = {}\n        tree_kwargs = (\"children\", \"sources\", \"sensors\", \"collections\")\n",
+         "new": "        tree_kwargs = (\"children\", \"sources\", \"sensors\", \"collections\")\n"
+                "        for k, v in kwargs.items():\n            if k in tree_kwargs:\n                setattr(obj_copy, k, v)\n"
+                "        style_kwargs = {}\n"},
+        {"name": "revert_fix_copy_tree_rollback", "kind": "revert", "commit": "a68f46d"},
         {"name": "revert_fix_empty_label", "kind": "revert", "commit": "0197573"},
         # 3c55826 (parent assigned last) cannot be reverse-applied any more since 0c17cf5 rewrote the same lines
         {"name": "copy_assigns_parent_first", "kind": "sub", "file": BG,
@@ -192,7 +218,16 @@ MUTANTS = {
         {"name": "magic_to_dict_merges_in_place", "kind": "sub", "file": DU,
          "old": "    merged = dict(first)\n",
          "new": "    merged = first\n"},
-        {"name": "revert_fix_dict_assignment_merge", "kind": "revert", "commit": "0497686"},
+        # 0497686 (a dictionary assigned to a sub-style updates it), as a substitution since 0563851 touched it
+        {"name": "dict_assignment_resets_substyle", "kind": "sub", "file": DU,
+         "old": "            val = current.copy().update(val)\n",
+         "new": "            val = class_(**val)\n"},
+        # (`val = current.update(val)` in place is, on its own, equivalent for the property: without a shared
+        #  sub-style object nobody else can see the in-place update; the revert of the whole repair is the mutant)
+        {"name": "revert_fix_substyle_copies", "kind": "revert", "commit": "0563851"},
+        {"name": "assigned_substyle_object_kept_by_reference", "kind": "sub", "file": DU,
+         "old": "        val = val.copy()\n",
+         "new": "        pass\n"},
         {"name": "revert_fix_style_reset", "kind": "revert", "commit": "f3dd4e6"},
         {"name": "revert_fix_label_key", "kind": "revert", "commit": "282ec0a"},
         # (the revert of d85c7fa - to_TriangleCollection() handing over the mesh's Trace3d objects - stopped being
